@@ -98,7 +98,7 @@ func runC20(c *an.Ctx) {
 	// ---- the node types the parser constructs
 	parse := p.Parse()
 	constructed := map[*types.Named]token.Pos{}
-	for _, f := range p.Fns {
+	for _, f := range p.Units() {
 		if f.Pkg != p.Jet || f.Body == nil {
 			continue
 		}
@@ -332,7 +332,7 @@ func (r *c20) beliefs() {
 	}
 	// (a) comparisons X.f == nil / != nil.  A test `if X.f == nil { <no-return> }` is a validation
 	// (it establishes that the field is non-nil in every tree that survives), not a nullability belief.
-	for _, f := range p.Fns {
+	for _, f := range p.Units() {
 		if f.Pkg != p.Jet || f.Body == nil {
 			continue
 		}
@@ -379,7 +379,7 @@ func (r *c20) beliefs() {
 		})
 	}
 	// (b) constructor call sites passing nil / a zero-valued local for a parameter that initialises a field
-	for _, ctor := range p.Fns {
+	for _, ctor := range p.Units() {
 		if ctor.Pkg != p.Jet || ctor.Decl == nil || ctor.Sig == nil {
 			continue
 		}
@@ -434,7 +434,7 @@ func (r *c20) beliefs() {
 		if ret == nil || !r.isNodeStruct(ret) {
 			continue
 		}
-		for _, caller := range p.Fns {
+		for _, caller := range p.Units() {
 			if caller.Pkg != p.Jet || caller.Body == nil {
 				continue
 			}
